@@ -39,6 +39,13 @@ CHECKS["C11"] = dict(
     note="Trusted: basix.make_quadrature as the definition of a rule; rational arithmetic of the harness. Table tolerances set to 1e-14 for sharpness.",
     design="5/C11",
 )
+CHECKS["C06"] = dict(
+    category="exploration",
+    technique="Hypothesis-generated multi-form modules with mixed integral types and rich subdomain ids; dispatch-model oracle (structural invariants + per-(type,id) differential against the reference evaluator + metadata recomputed from UFL/basix)",
+    text="Modules of 1-3 generated forms (cell/exterior/interior facet/vertex integrals; int, tuple and everywhere ids; repeated ids with different rules; prisms) are compiled; the descriptor's offsets/ids/array lengths are checked, the listed (type,id) set must equal the declared one, and the kernels listed under each (type,id) applied in sequence must equal the reference sum of the integrands declared for that id. Sampling over forms; every declared (type,id) of each sampled form is checked.",
+    note="Trusted: UFL integral_data grouping as the meaning of 'declared for an id', basix hashes, the reference evaluator (see C01).",
+    design="5/C06",
+)
 PENDING = {}
 
 def main():
